@@ -80,6 +80,9 @@ def cases(tier, seed=0):
           cs.append(Case("potable %s %s" % (m, tgt), EP.potable_case, model_name=m, target=tgt, nr=4, nrho=3))
           cs.append(Case("potable %s %s with history" % (m, tgt), EP.potable_case, model_name=m, target=tgt, nr=2, nrho=2,
                          history=("eam_species", "eam_species2", "fs_basic")))
+  from checks import eam_api as _ea
+  cs += _ea.surplus_cases('setfl', tier)
+  cs += _ea.after_failure_cases('setfl', tier)
   return cs
 
 
